@@ -142,18 +142,18 @@ class MDOParallelChain(ProcessDiscipline):
         self._set_disciplines_diff_inputs(input_names)
         jacobians = self.parallel_lin.execute(self._get_input_data_copies())
         self.jac = {}
-        # Update jacobians according to input order of priority
-        for discipline_jacobian in jacobians:
+        # Update jacobians according to input order of priority:
+        # an output computed by several disciplines is the one of the last of them,
+        # so are its derivatives, including the zero ones.
+        for discipline, discipline_jacobian in zip(self.disciplines, jacobians):
             if discipline_jacobian is None:
                 # The linearization of this discipline failed.
                 continue
 
+            for output_name in discipline.io.output_grammar:
+                self.jac.pop(output_name, None)
             for output_name, output_jacobian in discipline_jacobian.items():
-                chain_jacobian = self.jac.get(output_name)
-                if chain_jacobian is None:
-                    chain_jacobian = {}
-                    self.jac[output_name] = chain_jacobian
-                chain_jacobian.update(output_jacobian)
+                self.jac[output_name] = dict(output_jacobian)
 
         self._init_jacobian(
             input_names,
